@@ -11,7 +11,9 @@ import (
 	"context"
 	"fmt"
 	"github.com/shutter-network/rolling-shutter/rolling-shutter/keyper/shutterevents"
+	"github.com/shutter-network/rolling-shutter/rolling-shutter/shmsg"
 	abcitypes "github.com/tendermint/tendermint/abci/types"
+	"google.golang.org/protobuf/proto"
 	"math/big"
 	"sort"
 	"strings"
@@ -28,12 +30,13 @@ import (
 )
 
 type schedule struct {
-	name       string
-	phaseLen   int64
-	txPerBlock int
-	downtime   int  // after the crash the keyper stays down for this many rounds before it is restarted
-	rerun      bool // the first key generation fails (keyper 2 silent, keyper 1 pauses through its dealing phase) and shuttermint starts a second one
-	byz        bool // keyper 2 is played by the harness: wrong evaluation for keyper 0, false accusation of keyper 0, no apology (keyper 1 is a bystander of both accusations, keyper 0 accuses and apologises)
+	name        string
+	phaseLen    int64
+	txPerBlock  int
+	lateCheckIn bool // keyper 2 is not scheduled until two blocks after the eon started: its check-in comes late, the others send its evaluations as a second batch
+	downtime    int  // after the crash the keyper stays down for this many rounds before it is restarted
+	rerun       bool // the first key generation fails (keyper 2 silent, keyper 1 pauses through its dealing phase) and shuttermint starts a second one
+	byz         bool // keyper 2 is played by the harness: wrong evaluation for keyper 0, false accusation of keyper 0, no apology (keyper 1 is a bystander of both accusations, keyper 0 accuses and apologises)
 }
 
 // schedule 0: one block per round of keyper steps (several transactions per block);
@@ -51,6 +54,9 @@ var schedules = []schedule{
 	// late, so the run is not compared with the crash-free twin; it must replay the blocks like a
 	// keyper that was merely slow: everybody still derives the same key.
 	{name: "crash-then-downtime", phaseLen: 6, downtime: 8},
+	// schedule 5: one keyper checks in only after the key generation has begun, so the dealers'
+	// evaluations leave in two batches (crash consistency of the outbox with several messages of one kind)
+	{name: "late-check-in", phaseLen: 10, lateCheckIn: true, downtime: 4},
 }
 
 type crashPoint struct {
@@ -62,16 +68,16 @@ type crashPoint struct {
 }
 
 // rtAtRound[sc][k][r]: round trips keyper k had issued when round r of the crash-free run began
-var rtAtRound [5][3][]int
+var rtAtRound [6][3][]int
 
 // eonStartHeight[sc]: height at which eon 1 started in the crash-free run
-var eonStartHeight [5]int64
+var eonStartHeight [6]int64
 
 var (
 	points  []crashPoint
-	twin    [5]*outcome
-	censusR [5][3]int
-	censusC [5][3][]int // committing round-trip indices per keyper
+	twin    [6]*outcome
+	censusR [6][3]int
+	censusC [6][3][]int // committing round-trip indices per keyper
 )
 
 const (
@@ -106,6 +112,8 @@ func main() {
 			agg.Require("runs_block-per-round-with-accusations", 50)
 			agg.Require("runs_failed-then-rerun", 50)
 			agg.Require("runs_crash-then-downtime", 50)
+			agg.Require("runs_late-check-in", 50)
+			agg.Require("outbox_deletions_checked_against_the_chain", 1000)
 			agg.Extra["census_round_trips_keyper1"] = censusR[0][1]
 			agg.Extra["census_committing_round_trips_keyper1"] = len(censusC[0][1])
 			agg.Extra["census_round_trips_keyper1_block_per_transaction"] = censusR[1][1]
@@ -117,6 +125,7 @@ func main() {
 // outcome is what a run is judged by.
 type outcome struct {
 	finalDump            [nKeypers]string
+	polyEvalTxs          []int // signer of every accepted evaluation message, in chain order
 	success              [nKeypers]bool
 	pubKey               [nKeypers]string
 	msgSeq               [nKeypers][]string // first-occurrence order of each keyper's accepted transactions (kind/eon)
@@ -134,7 +143,10 @@ func prepare(env *vlib.Env) (int, error) {
 	for sc := range schedules {
 		twin[sc] = run(ctx, env, sc, nil)
 		if twin[sc].violation != "" {
-			return 0, fmt.Errorf("crash-free twin run (%s) is not clean: %s %v", schedules[sc].name, twin[sc].violation, twin[sc].vdetail)
+			// a monitor fires even without a crash: that is reported as a violation (a single case)
+			twinBroken, twinBrokenSched = twin[sc], sc
+			points = nil
+			return 1, nil
 		}
 		keypers := []int{0, 1, 2}
 		if schedules[sc].byz {
@@ -162,6 +174,24 @@ func prepare(env *vlib.Env) (int, error) {
 		}
 		if sc == 1 && !env.Thorough {
 			keypers = []int{int(env.Seed % 3)}
+		}
+		if schedules[sc].lateCheckIn {
+			// the twin must show two evaluation messages of a dealer
+			for _, k := range []int{0, 1} {
+				n := 0
+				for _, tx := range twin[sc].polyEvalTxs {
+					if tx == k {
+						n++
+					}
+				}
+				if n < 2 {
+					return 0, fmt.Errorf("crash-free twin run (%s): keyper %d sent %d evaluation messages, expected two batches", schedules[sc].name, k, n)
+				}
+			}
+			keypers = []int{0, 1}
+			if !env.Thorough {
+				keypers = []int{int(env.Seed % 2)}
+			}
 		}
 
 		if schedules[sc].downtime > 0 {
@@ -207,7 +237,22 @@ func prepare(env *vlib.Env) (int, error) {
 	return len(points), nil
 }
 
+var (
+	twinBroken      *outcome
+	twinBrokenSched int
+)
+
 func runCase(env *vlib.Env, idx int, rep *vlib.Reporter) {
+	if twinBroken != nil {
+		d := twinBroken.vdetail
+		if d == nil {
+			d = map[string]any{}
+		}
+		d["crash"] = "none (crash-free run, schedule " + schedules[twinBrokenSched].name + ")"
+		rep.Eval("crash-free/"+schedules[twinBrokenSched].name, true)
+		rep.Violationf(twinBroken.violation, d, "%s in the crash-free run of schedule %s", twinBroken.violation, schedules[twinBrokenSched].name)
+		return
+	}
 	p := points[idx]
 	o := run(context.Background(), env, p.sched, &p)
 	twin := twin[p.sched]
@@ -217,6 +262,8 @@ func runCase(env *vlib.Env, idx int, rep *vlib.Reporter) {
 		desc += fmt.Sprintf(" then kind=%d at=%d", p.second.kind, p.second.at)
 	}
 	rep.Obs("runs", 1)
+	rep.Obs("outbox_deletions_checked_against_the_chain", int64(outboxChecked))
+	rep.Obs("obsolete_votes_dropped_by_design", int64(outboxObsoleteVotes))
 	rep.Eval(desc, o.faultFired)
 	if o.faultFired {
 		rep.Obs("faults_fired", 1)
@@ -319,8 +366,11 @@ var dumpExclude = []string{
 	"poly_evals", "tendermint_encryption_key", "outgoing_eon_keys.eon_public_key", "meta_inf", "tendermint_outgoing_messages.id",
 }
 
+var outboxChecked, outboxObsoleteVotes int
+
 func run(ctx context.Context, env *vlib.Env, sc int, cp *crashPoint) *outcome {
 	o := &outcome{}
+	outboxChecked, outboxObsoleteVotes = 0, 0
 	finalEon := int64(1)
 	if schedules[sc].rerun {
 		finalEon = 2
@@ -363,6 +413,7 @@ func run(ctx context.Context, env *vlib.Env, sc int, cp *crashPoint) *outcome {
 	for _, k := range live {
 		k := k
 		last := int64(0)
+		outbox := map[int64][]byte{}
 		k.Node.DB.OnCommit(func(snap *pgmem.Snapshot) {
 			max := int64(-1)
 			seen := map[int64]int{}
@@ -387,6 +438,50 @@ func run(ctx context.Context, env *vlib.Env, sc int, cp *crashPoint) *outcome {
 			if max > last {
 				last = max
 			}
+			// (2) outbox monitor: a queued shuttermint message may only disappear from the outbox
+			// after the chain has executed it
+			cur := map[int64][]byte{}
+			for _, row := range snap.Rows("tendermint_outgoing_messages") {
+				id := row["id"].(int64)
+				cur[id], _ = row["msg"].([]byte)
+			}
+			for id, raw := range outbox {
+				if _, still := cur[id]; still {
+					continue
+				}
+				want := &shmsg.Message{}
+				if err := proto.Unmarshal(raw, want); err != nil {
+					continue
+				}
+				found := false
+				for _, tx := range s.Chain.AllTxs() {
+					if tx.Msg != nil && tx.Signer == s.U.Addrs[k.Idx] && proto.Equal(tx.Msg, want) {
+						found = true
+						break
+					}
+				}
+				if bc := want.GetBatchConfig(); !found && bc != nil {
+					// by design the keyper drops its still-queued vote once it sees the configuration
+					// accepted on chain (smstate.go handleBatchConfig: DeleteShutterMessageByDesc)
+					for _, c := range s.Chain.Rep.App.Configs {
+						if c.KeyperConfigIndex == bc.KeyperConfigIndex {
+							found = true
+							outboxObsoleteVotes++
+						}
+					}
+				}
+				if !found {
+					var mine []string
+					for _, tx := range s.Chain.AllTxs() {
+						if tx.Signer == s.U.Addrs[k.Idx] && tx.Msg != nil {
+							mine = append(mine, fmt.Sprintf("h%d:%s:%d", tx.Height, smchain.Kind(smchain.Tx{Signer: k.Idx, Msg: tx.Msg}), tx.Deliver.Code))
+						}
+					}
+					fail("queued-message-deleted-unsent", map[string]any{"keyper": k.Idx, "outbox_id": id, "kind": smchain.Kind(smchain.Tx{Signer: k.Idx, Msg: want}), "message": fmt.Sprintf("%.300v", want), "chain_txs_of_keyper": mine, "height": s.Chain.Height()})
+				}
+				outboxChecked++
+			}
+			outbox = cur
 		})
 	}
 	if cp == nil {
@@ -444,8 +539,17 @@ func run(ctx context.Context, env *vlib.Env, sc int, cp *crashPoint) *outcome {
 				pauseFrom, pauseUntil = h0, h0+schedules[sc].phaseLen+1
 			}
 		}
+		lateStart := int64(1 << 62)
+		if schedules[sc].lateCheckIn {
+			if h0, ok := eonStart(s, 1); ok {
+				lateStart = h0 + 2
+			}
+		}
 		for _, k := range live {
 			if k.Idx == 1 && pauseFrom >= 0 && s.Chain.Height() >= pauseFrom && s.Chain.Height() < pauseUntil {
+				continue
+			}
+			if schedules[sc].lateCheckIn && k.Idx == 2 && s.Chain.Height() < lateStart {
 				continue
 			}
 			if cp != nil && k.Idx == cp.keyper && downUntil >= 0 {
@@ -644,6 +748,9 @@ func judgeChain(s *dkgsim.Sim, o *outcome, fail func(string, map[string]any), by
 			gammas[ck] = &g
 		}
 		if pe := tx.Msg.GetPolyEval(); pe != nil {
+			if tx.Deliver.Code == 0 {
+				o.polyEvalTxs = append(o.polyEvalTxs, ki)
+			}
 			g := gammas[commitKey{tx.Signer, pe.Eon}]
 			for j, rc := range pe.Receivers {
 				ri := s.U.AddrIndex(common.BytesToAddress(rc))
@@ -669,7 +776,12 @@ func judgeChain(s *dkgsim.Sim, o *outcome, fail func(string, map[string]any), by
 			case tx.Msg.GetPolyCommitment() != nil:
 				label += fmt.Sprintf("/%d", tx.Msg.GetPolyCommitment().Eon)
 			case tx.Msg.GetPolyEval() != nil:
-				label += fmt.Sprintf("/%d", tx.Msg.GetPolyEval().Eon)
+				var rcv []int
+				for _, rc := range tx.Msg.GetPolyEval().Receivers {
+					rcv = append(rcv, s.U.AddrIndex(common.BytesToAddress(rc)))
+				}
+				sort.Ints(rcv)
+				label += fmt.Sprintf("/%d->%v", tx.Msg.GetPolyEval().Eon, rcv)
 			case tx.Msg.GetDkgResult() != nil:
 				label += fmt.Sprintf("/%d/%t", tx.Msg.GetDkgResult().Eon, tx.Msg.GetDkgResult().Success)
 			case tx.Msg.GetBlockSeen() != nil:
